@@ -42,7 +42,9 @@ X_TOL = 1e-6
 
 def gen_plan(rng, run_index, tier, opts):
     mip = rng.random() < 0.3
-    env = specs.Env(rng, max_T=(24 if mip else 48))
+    env = specs.Env(rng, max_T=(24 if mip else 72))
+    env.periodic_p = 0.3       # periodic assets: variables merged across steps, mapping index with gaps
+    env.coarse_p = 0.3
     g = specs.gen_grid(env)
     w = env.world
     f = w["grids"][g]["freq"]
@@ -83,13 +85,15 @@ def gen_plan(rng, run_index, tier, opts):
             feed = "stale"
             cur = rng.choice(seen)
         seen.append(cur)
-        form = rng.choice(["mask", "list", "date", "date"])
+        form = rng.choice(["mask", "list", "date", "date", "intidx", "intlist"])
+        if rng.random() < 0.06:
+            now = T          # the whole horizon
         tk = {"now": now, "feed": feed, "curve": cur, "form": form,
               "grid_arg": rng.choice(["explicit", "explicit", "none"]), "reuse_dict": reuse}
         if form != "date" and rng.random() < 0.35 and now >= 2:
             # the property speaks of all window positions: fix steps [lo, now) only
             tk["lo"] = rng.randint(1, now - 1)
-        if form != "date" and rng.random() < 0.25 and now >= 3:
+        if form != "date" and rng.random() < 0.25 and now >= 3 and now < T:
             # ... including windows with gaps ("peak hours already traded"): an explicit set of steps
             lo_ = tk.get("lo", 0)
             cand = list(range(lo_, now))
@@ -97,10 +101,28 @@ def gen_plan(rng, run_index, tier, opts):
             if rng.random() < 0.5 and T - now >= 2:
                 keep.append(rng.randint(now + 1, T - 1))   # and an isolated later step
             tk["steps"] = keep
+        if form == "date" and now >= T:
+            now = T - 1
+            tk["now"] = now
+        if form == "date" and rng.random() < 0.12:
+            tk["date_pos"] = rng.choice(["last_step", "beyond"])   # a date inside the last step / after the horizon pins everything
+            now = T
+            tk["now"] = T
+        if form != "date" and rng.random() < 0.05:
+            tk["steps"] = []   # an empty window pins nothing
+            tk["empty"] = True
+        if rng.random() < 0.1 and len(world["nodes"]) > 1:
+            # nodal restrictions of one node skipped (as a structured asset does for its wrapper): fixing must not care
+            used_nodes = sorted({world["nodes"][n]["name"] for a in world["portfolios"][P]["assets"] for n in specs.asset_nodes(world, a)})
+            if used_nodes:
+                tk["skip_nodes"] = [rng.choice(used_nodes)]
         if form == "date":
             tp = gi.timepoints[now - 1]
-            nxt = gi.timepoints[now]
+            step_ = gi.timepoints[1] - gi.timepoints[0]
+            nxt = gi.timepoints[now] if now < T else tp + step_
             t = tp + (nxt - tp) / 2
+            if tk.get("date_pos") == "beyond":
+                t = tp + 3 * step_
             wall = t.tz_convert("UTC").tz_localize(None) if t.tzinfo is not None else t
             tk["date"] = {"$t": rng.choice(["ts", "datetime"]), "v": specs.iso(wall), "tz": ("UTC" if tz is not None else None)}
             if tz is not None:
@@ -235,7 +257,7 @@ class Desk:
         g = self.B.grid(plan["grid"])
         pr = self.B.prices(plan["curves"][tk["curve"]])
         T = g.T
-        now = min(tk["now"], T - 1)
+        now = min(tk["now"], T if (tk["form"] != "date" or tk.get("date_pos")) else T - 1)
         self.stats["grid_steps_rolled"] += now
         # --- the solution the desk fixes to
         x_fix = self.x_prev.copy()
@@ -253,14 +275,23 @@ class Desk:
         W = set(range(lo, now))
         if tk.get("steps") and tk["form"] != "date":
             W = {int(i) for i in tk["steps"] if 0 <= int(i) < T} or W
+        if tk.get("empty") and tk["form"] != "date":
+            W = set()
         if tk["form"] == "mask":
             I = np.array([i in W for i in range(T)], dtype=bool)
         elif tk["form"] == "list":
             I = [bool(i in W) for i in range(T)]
+        elif tk["form"] == "intidx":
+            I = np.array(sorted(W), dtype=int)       # "indices on timegrid" (docstring of fix_time_window)
+        elif tk["form"] == "intlist":
+            I = [int(i) for i in sorted(W)]
+            if not I:
+                I = np.array([], dtype=int)
         # --- twin: window-less set-up on fresh objects
         tw = specs.Builder(self.w)
         try:
-            op_free = tw.portfolio(plan["portfolio"]).setup_optim_problem(tw.prices(plan["curves"][tk["curve"]]), tw.grid(plan["grid"]))
+            skw = {"skip_nodes": list(tk["skip_nodes"])} if tk.get("skip_nodes") else {}
+            op_free = tw.portfolio(plan["portfolio"]).setup_optim_problem(tw.prices(plan["curves"][tk["curve"]]), tw.grid(plan["grid"]), **skw)
         except Exception as e:
             self.stats["twin_failed"] += 1
             self.events.append((k, "twin-raise:%s@%s" % canon.exc_sig(e)))
@@ -271,8 +302,10 @@ class Desk:
             lo, hi = np.asarray(op_free.l, float), np.asarray(op_free.u, float)
             frac = np.array([((i * 7919 + k * 104729) % 1000) / 1000.0 for i in range(n)])
             x_fix = lo + (hi - lo) * frac
-            for i in bool_vars(op_free):
-                x_fix[i] = float(round(x_fix[i]))
+            if k % 2 == 0:
+                for i in bool_vars(op_free):
+                    x_fix[i] = float(round(x_fix[i]))
+            # (odd ticks keep fractional values on booleans: the solution of a relaxed run is a previous solution too)
         elif x_kind == "off_bounds":
             # a previous solution need not respect the *new* bounds (capacities may come from the price table):
             # the window must still be pinned to it, value for value
@@ -317,7 +350,7 @@ class Desk:
             if tk["form"] == "date":
                 self.probes["none_grid_date_form"] += 1
         try:
-            op = P.setup_optim_problem(pr, garg, fix_time_window=fx)
+            op = P.setup_optim_problem(pr, garg, fix_time_window=fx, **skw)
         except Exception as e:
             et, fr = canon.exc_sig(e)
             self.events.append((k, "setup-raise:%s@%s" % (et, fr)))
@@ -377,7 +410,7 @@ class Desk:
         sol_fault = tk.get("solver_fault")
         res = self.solve(op, sol_fault)
         clean = sol_fault is None
-        same_curve = (self.x_is_opt_for == tk["curve"]) and x_kind in ("solution", "longer")
+        same_curve = (self.x_is_opt_for == tk["curve"]) and x_kind in ("solution", "longer") and not tk.get("skip_nodes")
         x_feasible_by_construction = x_kind in ("solution", "longer", "slp")
         if isinstance(res, str):
             self.events.append((k, "solve:" + res))
@@ -438,7 +471,8 @@ class Desk:
                               "optimum has violation %.3g and value %r" % (float(res.value), self.v_prev, mv, vh), field="value")
                     return
         self.stats["liveness_checked"] += 1
-        if x_kind in ("solution", "longer", "slp"):
+        if x_kind in ("solution", "longer", "slp") and not tk.get("skip_nodes"):
+            # (a tick with skipped nodal restrictions solves a relaxation: the desk looks at it but keeps its solution)
             self.accept(res, op, tk["curve"], fixed.copy())
         self.events.append((k, canon.digest_canon({"v": float(res.value), "nfix": int(fixed.sum())}, nd=5)))
 
@@ -485,7 +519,7 @@ class Desk:
         if (multi & fixed).any():
             feats.add("multirow")
         cls_sig = ",".join(sorted({name2cls.get(a, "?") for a in set(assets)}))
-        state = "%s|%s|%s|%s|%s|%s|%s" % (tk["form"] + ("/gaps" if tk.get("steps") else "/mid" if tk.get("lo") else "") + ("/" + tk["date_tz"] if tk.get("date_tz") else ""), tk["grid_arg"], tk["feed"], x_kind, tk.get("solver_fault", "-"),
+        state = "%s|%s|%s|%s|%s|%s|%s" % (tk["form"] + ("/empty" if tk.get("empty") else "/gaps" if tk.get("steps") else "/mid" if tk.get("lo") else "") + ("/skip" if tk.get("skip_nodes") else "") + ("/" + tk["date_tz"] if tk.get("date_tz") else ""), tk["grid_arg"], tk["feed"], x_kind, tk.get("solver_fault", "-"),
                                          "restart" if tk.get("restart") else "-", ",".join(sorted(feats)) or "plain")
         trivial = (not feats) and tk["feed"] == "new" and x_kind == "solution" and not tk.get("solver_fault") and not tk.get("restart")
         self.pairs.add(("T|" if trivial else "N|") + state + "|" + cls_sig)
@@ -540,7 +574,7 @@ def simplify_candidates(plan):
             c["world"]["portfolios"][P]["assets"] = [x for x in assets if x != a]
             yield c
     for i, tk in enumerate(plan["ticks"]):
-        for k in ("solver_fault", "restart", "x_source", "reuse_dict", "lo", "steps"):
+        for k in ("solver_fault", "restart", "x_source", "reuse_dict", "lo", "steps", "skip_nodes", "empty"):
             if tk.get(k):
                 c = copy.deepcopy(plan)
                 c["ticks"][i].pop(k)
